@@ -68,7 +68,7 @@ def _make_wc_step(name, spec, world, plumpy):
         pending = sorted(f'fut{k}' for k, f in world.futures.items() if not f.done())
         pending += sorted(label(c) for c in world.children if not c.has_terminated())
         world.rec('wstep', label(self), name, ctx_view(self), self.paused, self.status,
-                  plumpy.Process.current() is self, pending)
+                  programs.current_is(self, plumpy), pending)
         self.ctx.simtrace.append(name)
         world.site(self, f'step:{name}')
         awaited = {}
@@ -301,7 +301,7 @@ def gen_outline(rng, cfg=None):
         name = f'w{counter[0]}'
         effects = []
         if rng.random() < 0.4:
-            effects.append({'e': 'ctxset', 'key': rng.choice(['a', 'b', 'c']), 'v': programs.gen_value(rng)})
+            effects.append({'e': 'ctxset', 'key': rng.choice(['a', 'b', 'c', '_private']), 'v': programs.gen_value(rng)})
         if cfg.get('aliasing', True) and rng.random() < 0.2:
             effects.append({'e': 'ctxset', 'key': 'lst', 'v': [counter[0]]})
             effects.append({'e': 'ctxalias', 'src': 'lst', 'dst': 'same'})
